@@ -70,7 +70,8 @@ HasExt(prog, s, t) == ExtFn(prog, s, t) # ""
 
 (* Named deviations of the protocol, used to *select* programs for replay: a program on which a deviant protocol ends differently
    from the specified one is a program on which such a slip in the implementation becomes visible.
-     availcreator   a generated method remembers the context set of its creator instead of the availability at its creation      *)
+     availcreator   a generated method is rebuilt under the (current) context set of its creator instead of the availability at
+                    its creation                                                                                                   *)
 Dev(prog) == IF "dev" \in DOMAIN prog THEN prog.dev ELSE ""
 NoBody == [k |-> "none"]
 NewMethod(s, t, explicit, retErr, ctx, origin, avail) ==
@@ -147,7 +148,7 @@ Conv(prog, st, m, seen, s, t, av, top) ==
           seen1 == IF s.k \in {"named", "nn"} THEN seen \cup {s.id} ELSE seen
       IN IF create THEN
            LET j == Len(st1.ms) + 1
-               st2 == [st1 EXCEPT !.ms = Append(@, WithZero(NewMethod(s, t, FALSE, FALSE, FALSE, <<m>> \o st1.ms[m].origin, IF Dev(prog) = "availcreator" THEN st1.ms[m].ctx ELSE av.avail), ZeroConv(prog)))]
+               st2 == [st1 EXCEPT !.ms = Append(@, WithZero(NewMethod(s, t, FALSE, FALSE, FALSE, <<m>> \o st1.ms[m].origin, av.avail), ZeroConv(prog)))]
                st3 == BuildTop(prog, st2, j, av.avail)
            IN IF st3.fail # "" THEN [st |-> st3, seen |-> seen1, ir |-> NoBody] ELSE CallM(st3, m, seen1, j, av.inScope)
          ELSE Rule(prog, st1, m, seen1, s, t, av, FALSE)
@@ -192,16 +193,28 @@ BuildTop(prog, st, m, avail) ==
       r == Rule(prog, st, m, {}, st.ms[m].src, st.ms[m].tgt, av, TRUE)
   IN IF r.st.fail # "" THEN r.st ELSE [r.st EXCEPT !.ms[m].body = r.ir]
 
-\* buildDirtyMethods: methods in name order; the model keeps registration order, which coincides for this family
-\* up to the order among generated methods -- the order only matters for the number of sweeps
-RECURSIVE SweepFrom(_,_,_)
-SweepFrom(prog, st, m) ==
-  IF m > Len(st.ms) \/ st.fail # "" THEN st
-  ELSE IF st.ms[m].dirty
+(* buildDirtyMethods: one sweep visits the methods that exist when it starts, in *name* order, and builds those that are dirty when it
+   reaches them.  Names: the declared Conv, ConvB, ConvL; generated <source id>To<Target id> with the package name in the id --
+   p12AToP12A2 < p12BToP12B2 < p12LPToIntList < p12NIToString < pP12AToPP12A2 < pP12BToP12B2 < pP12BToPP12B2.                       *)
+Rank(mr) ==
+  IF mr.explicit THEN (IF mr.src = N("A") THEN 0 ELSE IF mr.src = N("B") THEN 1 ELSE 2)
+  ELSE CASE mr.src = N("A") -> 10 [] mr.src = N("B") -> 11
+         [] mr.src.k = "nn" /\ mr.src.id = "LP" -> 12 [] mr.src.k = "nn" -> 13
+         [] mr.src = P(N("A")) -> 14
+         [] mr.src = P(N("B")) /\ mr.tgt = N("B2") -> 15
+         [] OTHER -> 16
+SortedIdx(st) == SortSeq([i \in DOMAIN st.ms |-> i], LAMBDA a, b : Rank(st.ms[a]) < Rank(st.ms[b]))
+RECURSIVE SweepSeq(_,_,_,_)
+SweepSeq(prog, st, order, k) ==
+  IF k > Len(order) \/ st.fail # "" THEN st
+  ELSE LET m == order[k] IN
+       IF st.ms[m].dirty
        THEN LET avail == IF st.ms[m].explicit THEN st.ms[m].ctx
+                         ELSE IF Dev(prog) = "availcreator" THEN st.ms[Head(st.ms[m].origin)].ctx   \* the creator's context set, aliased
                          ELSE IF Fixed THEN st.ms[m].avail ELSE st.ms[m].ctx      \* pinned: a rebuild sees only the method's own contexts
-            IN SweepFrom(prog, BuildTop(prog, [st EXCEPT !.ms[m].dirty = FALSE], m, avail), m + 1)
-       ELSE SweepFrom(prog, st, m + 1)
+            IN SweepSeq(prog, BuildTop(prog, [st EXCEPT !.ms[m].dirty = FALSE], m, avail), order, k + 1)
+       ELSE SweepSeq(prog, st, order, k + 1)
+SweepFrom(prog, st, m) == SweepSeq(prog, st, SortedIdx(st), 1)
 AnyDirty(st) == \E m \in DOMAIN st.ms : st.ms[m].dirty
 
 RECURSIVE Generate(_,_,_)
